@@ -845,3 +845,79 @@ def reload_reads_rule(ctx, rid, cls="Harvester"):
     else:
         raise AnalysisError("idiom changed: %s can return without reading a file that is there (a cache decided by `%s`); whether that cache is sound is not analysed" % (lname, "; ".join(norm(n.ast)[:50] for n in deciders[:2])))
     return rr
+
+
+def tmp_keeps_extension_rule(ctx, rid):
+    """C15.R12 / C12.R7: pandas infers the compression of a pickle / csv file from the *name* it is given.  The table
+    is first written under a temporary name and then renamed onto the data name; if the temporary name does not end
+    with the data name's extension, a table whose data name ends in .gz / .bz2 / .xz / .zip is written uncompressed
+    and can never be read back under its own name (a new sampler cannot continue; a reaped crop's data is lost)."""
+    from ..util import ConstFold
+    rr = ctx.rule(rid, "Sampler.save_full_df: the temporary the table is written to keeps the data name's extension (pandas infers the compression from it) and lies in the same directory", floor=1)
+    f = ctx.prog.need_func(FARM + ".Sampler.save_full_df")
+    g = build_cfg(f.node)
+    ctx.touch(f, g)
+    saves = [c for n, c, nm in all_calls(ctx, f, g) if nm == MAN + ".save_df"]
+    need(saves, "anchor lost: save_full_df does not call save_df")
+    for c in saves:
+        need(len(c.args) >= 2, "idiom changed: save_df call in save_full_df")
+        e = c.args[1]
+        if norm(e) == "self.data_name":
+            rr.ok("save_full_df writes the data name itself (no temporary)")
+            continue
+        vals = []
+        for stand in ("/data/run/table.pkl.gz", "table.csv.bz2"):
+            try:
+                vals.append((stand, ConstFold(ctx, f, {"self.data_name": stand}).ev(e)))
+            except AnalysisError as ex:
+                raise AnalysisError("idiom changed: the temporary name in save_full_df does not fold (%s)" % ex)
+        import os as _os
+        bad = [(s_, v_) for s_, v_ in vals if not (isinstance(v_, str) and v_.endswith(_os.path.splitext(s_)[1]) and _os.path.dirname(v_) == _os.path.dirname(s_) and v_ != s_)]
+        if bad:
+            s_, v_ = bad[0]
+            rr.bad(ctx.finding(rid, f, e, "for the data name %r the table is first written to %r: pandas infers the compression from the extension, so the table is written with another compression than its final name says and cannot be read back "
+                               "under that name (BadGzipFile / wrong directory) -- a new sampler on the file cannot continue from it" % (s_, v_), construct="tmp-extension"), "temporary extension")
+        else:
+            rr.ok("temporary name keeps extension and directory: %s" % ", ".join("%s -> %s" % sv for sv in vals))
+    return rr
+
+
+def stale_encoding_rule(ctx, rid):
+    """C05.R9: xarray remembers, per variable, the dtype the file stored it with (`.encoding['dtype']`) and applies it again
+    when the dataset is written.  A dataset that is loaded from the data file, merged with new data and written back must not
+    carry those encodings along: an integer-encoded coordinate merged with the label 2.5 is written as 2 (with a warning
+    only), so on disk the new point sits under another point's label.  Somewhere between the load and the save the dtype
+    encodings have to be dropped (drop_encoding / reset_encoding / encoding.pop('dtype') / encoding.clear() / encoding = {})."""
+    rr = ctx.rule(rid, "load -> merge -> save: the file's dtype encodings are dropped before the merged dataset is written (xarray would cast new float labels to the old integer dtype)", floor=2)
+    prog = ctx.prog
+    H = prog.need_cls(FARM + ".Harvester")
+    groups = [("Harvester", [H.methods[n] for n in ("load_full_ds", "add_ds", "save_full_ds", "full_ds") if n in H.methods] + [prog.need_func(MAN + ".load_ds"), prog.need_func(MAN + ".save_ds")], H.methods["load_full_ds"]),
+              ("save_merge_ds", [prog.need_func(MAN + ".save_merge_ds"), prog.need_func(MAN + ".load_ds"), prog.need_func(MAN + ".save_ds")], prog.need_func(MAN + ".save_merge_ds"))]
+
+    def resets(fn, depth=0):
+        for x in ast.walk(fn.node):
+            if isinstance(x, ast.Call) and isinstance(x.func, ast.Attribute) and x.func.attr in ("drop_encoding", "reset_encoding"):
+                return True
+            if isinstance(x, ast.Call) and isinstance(x.func, ast.Attribute) and x.func.attr in ("pop", "clear") and isinstance(x.func.value, ast.Attribute) and x.func.value.attr == "encoding":
+                if x.func.attr == "clear" or (x.args and isinstance(x.args[0], ast.Constant) and x.args[0].value == "dtype"):
+                    return True
+            if isinstance(x, ast.Assign) and isinstance(x.targets[0], ast.Attribute) and x.targets[0].attr == "encoding":
+                return True
+            if isinstance(x, ast.Call) and depth < 2:
+                from ..util import callee_func
+                cf = callee_func(ctx, fn, x)
+                if cf is not None and cf.module.name in (MAN, FARM) and cf not in seen_:
+                    seen_.add(cf)
+                    if resets(cf, depth + 1):
+                        return True
+        return False
+    for label, fns, anchor in groups:
+        seen_ = set(fns)
+        for fn in fns:
+            ctx.touch(fn)
+        if any(resets(fn) for fn in fns):
+            rr.ok("%s: the loaded dataset's dtype encodings are dropped before it is written back" % label)
+        else:
+            rr.bad(ctx.finding(rid, anchor, anchor.node, "%s loads the data file, merges new data into it and writes the result back without ever dropping the variables' dtype encodings: xarray re-applies the stored dtype on writing, so after harvesting x = [1, 2] "
+                               "a point harvested at x = 2.5 is written to disk under the label 2 (SerializationWarning only) -- memory says [1, 2, 2.5], the file [1, 2, 2]" % label, construct="stale-dtype-encoding " + label), "%s encodings" % label)
+    return rr
